@@ -2,6 +2,7 @@
 #[path = "../../harness/src/util.rs"]
 mod util;
 mod aad;
+mod apl;
 mod arf;
 mod asrw;
 mod at;
@@ -28,6 +29,7 @@ fn main() {
         "achain" | "atake" => aad::run(&mode, thorough, seed, &mut w),
         "arf" | "arfc" => arf::run(&mode, thorough, seed, &mut w),
         "at" => at::run(thorough, seed, &mut w),
+        "apl" => apl::run(thorough, seed, &mut w),
         "replay" => {
             let stdin = std::io::stdin();
             let mut line = String::new();
@@ -39,7 +41,7 @@ fn main() {
                 if l.is_empty() {
                     continue;
                 }
-                if !(aad::replay_line(l, &mut w) || arf::replay_line(l, &mut w)) {
+                if !(aad::replay_line(l, &mut w) || arf::replay_line(l, &mut w) || apl::replay_line(l, &mut w)) {
                     writeln!(w, "CANNOT-REPLAY {}", l).unwrap();
                 }
             }
